@@ -34,17 +34,22 @@ def parse_runs(text):
         t = ln.split()
         if not t:
             continue
-        if t[0] == "begin" and len(t) == 3:
+        if t[0] == "begin" and len(t) == 3 and t[1].isdigit() and t[2].isdigit():
             cur = {"regs": [], "calls": [], "lines": [], "ended": False}
             runs[(int(t[1]), int(t[2]))] = cur
             continue
         if cur is None:
             continue
         cur["lines"].append(ln)
+        def num(x):
+            try:
+                return int(x)
+            except ValueError:
+                return -999999          # garbage printed by a miscompiled program
         if t[0] == "reg" and len(t) == 4:
-            cur["regs"].append((int(t[2]), int(t[3])))
+            cur["regs"].append((num(t[2]), num(t[3])))
         elif t[0] == "call" and len(t) == 4:
-            cur["calls"].append((int(t[2]), int(t[3])))
+            cur["calls"].append((num(t[2]), num(t[3])))
         elif t[0] == "end":
             cur["ended"] = True
             cur = None
@@ -193,7 +198,7 @@ def run(ck):
                 interesting += 1
             # model prediction for the executed statements llgo reports
             regs = [(pos_of[j], p) for j, p in lr["regs"] if j in pos_of]
-            obs = [(pos_of.get(j, 999), p) for j, p in lr["calls"]]
+            obs = [(pos_of.get(j, 999), max(p, -9)) for j, p in lr["calls"]]
             term = "((%s, [%s]), [%s])" % (
                 coq_shape(sh),
                 "; ".join("(%d%%nat, %d%%N)" % (pos, p + 10) for pos, p in regs),
